@@ -155,6 +155,8 @@ def run_engine(ctx, K):
         # replacing Var by VarEqual changes no observer value: the handler scenario runs half of its graphs with an
         # equality var (written mid-pass and written back to the held value by an update handler) against plain-Var expectations
         run_parscen(ctx, K, only="writes-from-update-handlers")
+    if ctx.pid == "C13":
+        run_parscen(ctx, K, only="unobserve-from-a-node-function")  # a handler filed in the pass is withdrawn when its observer is released mid-pass
     if ctx.pid in ("C03", "C05"):
         run_sentinel(ctx, K)
     if ctx.pid in ("C12", "C03"):
